@@ -118,6 +118,17 @@ func (o *jnode) set(k string, v *jnode) *jnode {
 	o.vals = append(o.vals, v)
 	return o
 }
+
+// put replaces the value of an existing key, or appends the entry (no duplicate keys)
+func (o *jnode) put(k string, v *jnode) *jnode {
+	for i := range o.keys {
+		if o.keys[i] == k {
+			o.vals[i] = v
+			return o
+		}
+	}
+	return o.set(k, v)
+}
 func (o *jnode) get(k string) *jnode {
 	for i := len(o.keys) - 1; i >= 0; i-- {
 		if o.keys[i] == k {
